@@ -53,10 +53,10 @@ theorem sliceByLine_via_slowLoop {cfg : Config} (m : MatcherI) (σ : Script) (hb
       obtain ⟨h1, h2⟩ := hrun
       subst h1 h2
       simp only [sliceLoop, List.length_nil, Nat.zero_add, List.drop_nil, List.isEmpty_nil, if_true]
-      have hf := finish_events σ c0 (byteCount c0) c0.binaryByteOffset
+      have hf := finish_events σ c0 (byteCount cfg c0) c0.binaryByteOffset
       simp only [Run.events]
       rw [hf.1, hf.2]
-      simp [byteCount, c_bin, c_pos, endEvents, endResult]
+      simp [byteCount, ite_self, c_bin, c_pos, endEvents, endResult]
     · have hd : (List.drop c0.pos inp).isEmpty = false := by
         rw [c_pos]
         cases inp with
@@ -77,10 +77,10 @@ theorem sliceByLine_via_slowLoop {cfg : Config} (m : MatcherI) (σ : Script) (hb
         cases b with
         | false =>
           dsimp only
-          have hf := finish_events σ T1 (byteCount T1) T1.binaryByteOffset
+          have hf := finish_events σ T1 (byteCount cfg T1) T1.binaryByteOffset
           simp only [Run.events]
           rw [hf.1, hf.2]
-          simp [byteCount, hTbin, endEvents, endResult]
+          simp [byteCount, ite_self, hTbin, endEvents, endResult]
         | true =>
           dsimp only
           have hp := hpos rfl
@@ -90,10 +90,10 @@ theorem sliceByLine_via_slowLoop {cfg : Config} (m : MatcherI) (σ : Script) (hb
             | succ n => rw [sliceLoop]; simp [hp]
           rw [hloop]
           dsimp only
-          have hf := finish_events σ T1 (byteCount T1) T1.binaryByteOffset
+          have hf := finish_events σ T1 (byteCount cfg T1) T1.binaryByteOffset
           simp only [Run.events]
           rw [hf.1, hf.2]
-          simp [byteCount, hTbin, endEvents, endResult]
+          simp [byteCount, ite_self, hTbin, endEvents, endResult]
   · rw [hlen0, hσ] at hσ'; exact absurd hσ' (by decide)
   · rw [hlen0, hσ] at hσ'; exact absurd hσ' (by decide)
 
@@ -193,10 +193,10 @@ theorem sliceByLine_prefix {cfg : Config} (m : MatcherI) (σ : Script) (hbin : c
     | err => exact ⟨rest, hrest⟩
     | ok u =>
       dsimp only
-      have hf := finish_events σ T (byteCount T) T.binaryByteOffset
+      have hf := finish_events σ T (byteCount cfg T) T.binaryByteOffset
       simp only [Run.events]
       rw [hf.1]
-      exact ⟨rest ++ [.finish (byteCount T) T.binaryByteOffset], by rw [hrest, List.append_assoc]⟩
+      exact ⟨rest ++ [.finish (byteCount cfg T) T.binaryByteOffset], by rw [hrest, List.append_assoc]⟩
   · rw [hlen0, hσ] at hσ'; exact absurd hσ' (by decide)
   · rw [hlen0, hσ] at hσ'; exact absurd hσ' (by decide)
 
@@ -327,11 +327,11 @@ theorem readByLine_vs_sliceByLine_alloc {cfg : Config} (m : MatcherI) (σ : Scri
         rw [if_neg (by decide)]
         dsimp only
         have hf := finish_events σ ({ Core.new cfg true with events := (Core.new cfg true).events ++ [Event.begin] } : Core)
-          (byteCount { Core.new cfg true with events := (Core.new cfg true).events ++ [Event.begin] })
+          (byteCount cfg { Core.new cfg true with events := (Core.new cfg true).events ++ [Event.begin] })
           ({ Core.new cfg true with events := (Core.new cfg true).events ++ [Event.begin] } : Core).binaryByteOffset
         simp only [Run.events]
         rw [hf.1, hf.2]
-        simp [byteCount, Core.new]
+        simp [byteCount, ite_self, Core.new]
       · rw [hlen1, hσ] at hσ'; exact absurd hσ' (by decide)
     exact Or.inl ⟨by rw [hr.1, hs.1], by rw [hr.2, hs.2]⟩
   | err =>
